@@ -2,7 +2,7 @@
 outcomes (reported as CIF_DISALLOWED_CHAR / accepted silently) can an expansion of SCAN_UCHAR reach?  Branch conditions that
 depend only on the character, on values computed from it inside the expansion and on the version are decided; any other
 condition is followed both ways (sparse conditional constant propagation restricted to one macro expansion)."""
-from .facts import Broken, strip, const, walk, macro_name
+from .facts import Broken, strip, const, walk, walk_eval, macro_name
 from .interp import path
 from . import cfgq
 
@@ -216,3 +216,111 @@ def rule(prog, r):
             r.ok(key, "%d forbidden code units reported, %d allowed ones accepted (CIF 2.0); U+FEFF reported in CIF 1.1"
                  % (len(FORBIDDEN_V2), len(ALLOWED_V2)))
     return n
+
+
+def predicate_outcomes(fn, ch, limit=400):
+    """For a function of the shape `for (c = s; *c; c++) { ...tests of *c...; return K; }`: the constants it can return while
+    `*c` is the code unit ch, plus "next" if it can move on to the following character.  Conditions are evaluated with *c
+    (and c[0]) bound to ch; what cannot be evaluated is followed on both outcomes."""
+    ptrs = {v["name"] for v in list(fn.locals) + list(fn.params) if "UChar" in v.get("t", "") and "*" in v.get("t", "")}
+
+    class Env(dict):
+        pass
+
+    def ev(e):
+        e = strip(e)
+        if isinstance(e, dict):
+            if e.get("k") == "un" and e.get("op") == "*" and path(strip(e.get("e"))) in ptrs:
+                return ch
+            if e.get("k") == "index" and path(strip(e.get("base"))) in ptrs and const(e.get("idx")) == 0:
+                return ch
+        return None
+
+    def evx(e):
+        # substitute: wrap _ev with a hook for the dereference
+        e = strip(e)
+        v = ev(e)
+        if v is not None:
+            return v
+        if not isinstance(e, dict):
+            return None
+        c = const(e)
+        if c is not None:
+            return c
+        k = e.get("k")
+        if k == "cast":
+            return evx(e.get("e"))
+        if k == "un":
+            v = evx(e.get("e"))
+            return None if v is None else {"!": int(not v), "-": -v, "~": ~v, "+": v}.get(e.get("op"))
+        if k == "bin":
+            op = e.get("op")
+            a, b = evx(e.get("lhs")), evx(e.get("rhs"))
+            if op in ("&&", "||"):
+                if a is not None and ((op == "&&" and not a) or (op == "||" and a)):
+                    return int(op == "||")
+                if b is not None and ((op == "&&" and not b) or (op == "||" and b)):
+                    return int(op == "||")
+                if a is None or b is None:
+                    return None
+                return int(bool(a) and bool(b)) if op == "&&" else int(bool(a) or bool(b))
+            if a is None or b is None:
+                return None
+            try:
+                return {"&": a & b, "|": a | b, "^": a ^ b, "+": a + b, "-": a - b, "==": int(a == b), "!=": int(a != b),
+                        "<": int(a < b), "<=": int(a <= b), ">": int(a > b), ">=": int(a >= b)}[op]
+            except KeyError:
+                return None
+        return None
+    outs = set()
+    seen = set()
+    work = [fn.entry]
+    steps = 0
+    while work and steps < limit:
+        bid = work.pop()
+        if bid in seen or bid is None:
+            continue
+        seen.add(bid)
+        steps += 1
+        blk = fn.blocks[bid]
+        stop = False
+        for r in blk.roots:
+            for x in walk_eval(r):
+                if x.get("k") == "ret":
+                    v = evx(x.get("e")) if x.get("e") is not None else None
+                    outs.add(v if v is not None else "?")
+                    stop = True
+                elif (x.get("k") == "un" and x.get("op") in ("pre++", "post++") and path(strip(x.get("e"))) in ptrs) or \
+                        (x.get("k") == "asg" and x.get("op") in ("+=",) and path(strip(x.get("lhs"))) in ptrs):
+                    outs.add("next")
+                    stop = True
+            if stop:
+                break
+        if stop:
+            continue
+        term = blk.term
+        succs = [s for s in blk.succs]
+        if term and term.get("k") == "SwitchStmt" and term.get("cond") is not None:
+            cnd = fn.nodes().get(term["cond"])
+            v = evx(cnd) if cnd is not None else None
+            if v is not None:
+                tgt = None
+                dflt = None
+                for s in succs:
+                    if s is None:
+                        continue
+                    lab = fn.blocks[s].label
+                    if lab and lab.get("k") == "case" and lab.get("v") == v:
+                        tgt = s
+                    elif not (lab and lab.get("k") == "case"):
+                        dflt = s
+                work.append(tgt if tgt is not None else dflt)
+                continue
+        elif len(succs) == 2 and term and term.get("cond") is not None:
+            cnd = fn.nodes().get(term["cond"])
+            v = evx(cnd) if cnd is not None else None
+            if v is not None:
+                work.append(succs[0] if v else succs[1])
+                continue
+        work.extend(s for s in succs if s is not None)
+    return outs
